@@ -17,6 +17,7 @@ import stat
 from contextlib import asynccontextmanager
 from mailbox import NoSuchMailboxError, _lock_file  # type: ignore[attr-defined]
 from pathlib import Path
+from collections.abc import Iterator
 from typing import TYPE_CHECKING, Any
 
 # 3rd party imports
@@ -81,6 +82,24 @@ class MH(mailbox.MH):
         self._locked: bool = False
         path = str(path)
         super().__init__(path, factory=factory, create=create)  # type: ignore[arg-type]
+
+    ####################################################################
+    #
+    def iterkeys(self) -> Iterator[int]:
+        """
+        Return an iterator over the message keys of this folder.
+
+        A directory entry whose name is all digits is a message unless it is
+        a directory: that is a sub-folder that happens to have such a name
+        (`Archive/2024`.) The stdlib takes it for message 2024 of `Archive`,
+        and `pack()` would rename it.
+        """
+        keys = []
+        with os.scandir(self._path) as entries:
+            for entry in entries:
+                if entry.name.isdigit() and not entry.is_dir():
+                    keys.append(int(entry.name))
+        return iter(sorted(keys))
 
     ####################################################################
     #
